@@ -162,8 +162,13 @@ def canon_exc(e):
         d['token_type'] = getattr(tok, 'type', None)
         d['token'] = canon_token(tok) if hasattr(tok, 'start_pos') else repr(tok)
         d['expected'] = sorted(e.expected) if e.expected is not None else None
+        # .accepts is computed lazily by trial feeds: run it under its own step budget (a diverging
+        # conflict-resolved automaton would otherwise spin here, outside the budget of the API call)
         try:
-            d['accepts'] = sorted(e.accepts) if e.accepts is not None else None
+            acc = STEPS.run('exc.accepts', 400_000, lambda: e.accepts) if STEPS.enabled else e.accepts
+            d['accepts'] = sorted(acc) if acc is not None else None
+        except StepBudgetExceeded:
+            d['accepts'] = 'BUDGET'
         except Exception as x:          # pragma: no cover
             d['accepts'] = 'ERR ' + repr(x)
     elif isinstance(e, UnexpectedCharacters):
